@@ -136,3 +136,15 @@ Proof. unfold free_vk. destruct (Budget.free_mem _ _ _) as ((b' & r) & cs). cbn.
 
 Lemma remove_allocation_no_error c m h size : match snd (remove_allocation c m h size) with ER _ => False | _ => True end.
 Proof. unfold remove_allocation. destruct (Budget.remove_alloc _ _ _ _) as ((b' & r) & cs). cbn. destruct r; exact I. Qed.
+
+Lemma dev_map_next c m id : m_next (fst (dev_map c m id)) = m_next m.
+Proof.
+  unfold dev_map. destruct (find_mem _ _); [|reflexivity]. destruct (negb _); [reflexivity|]. destruct (_ <=? 0); [reflexivity|].
+  destruct (dev_fault _ _ _) as ((f1 & fired1) & r). destruct (negb _); reflexivity.
+Qed.
+
+Lemma sm_map_next c m mem s : m_next (fst (fst (sm_map c m mem s))) = m_next m.
+Proof.
+  unfold sm_map. pose proof (dev_map_next c m mem) as H. destruct (dev_map c m mem) as (m1 & code).
+  destruct (SyncMem.do_map _ _ _) as ((s' & r) & cs). cbn in *. destruct cs; auto.
+Qed.
